@@ -21,6 +21,11 @@ def gen(ck, n):
         p = proggen.defuse_program(ck.rng, n + i + 1)
         p["xf"] = ck.rng.choice([["dce"], ["dce"], ["dce", "simplify"], ["simplify", "dce", "simplify"], ["lsa", "dce"]])
         ps.append(p)
+    # array programs (liveness-driven DCE on array variables: stores flagged strong or weak, copies, loads)
+    for i in range(max(12, n // 8)):
+        p = proggen.array_live_program(ck.rng, 2 * n + i + 1)
+        p["xf"] = ck.rng.choice([["dce"], ["dce"], ["dce", "simplify"], ["simplify", "dce"], ["lsa", "dce"]])
+        ps.append(p)
     return ps
 
 
@@ -35,7 +40,9 @@ def explore(ck, label, ps):
     pairs = []
     for p in ps:
         r = res.get(p["id"], {"err": "missing"})
-        q = {"id": p["id"], "nv": 3, "outs": p["outs"], "init": p["init"], "xfnames": p["xf"]}
+        q = {"id": p["id"], "nv": p.get("nv", 3), "outs": p["outs"], "init": p["init"], "xfnames": p["xf"]}
+        if "ncells" in p:       # array programs: kinds of the variables and number of cells per array
+            q["kinds"], q["ncells"] = p["kinds"], p["ncells"]
         if "err" in r or any(st["op"] == "unknown" for b in r["cfg"]["blocks"] for st in b["stmts"]):
             q.update({"err": 1, "orig": {"entry": 0, "exit": 0, "blocks": [], "labels": []}, "xf": {"entry": 0, "exit": 0, "blocks": [], "labels": []}})
             ck.cov["no_claim_crash"] = ck.cov.get("no_claim_crash", 0) + 1
